@@ -266,8 +266,8 @@ def check_history(ck, drv, s, spec, tamper=None):
         s.expect(False, inp, "a well-formed container specification cannot be built", built)
         return []
     sb, cert, hl = built[1]
-    s.expect(sb.cert_block.expected_size == len(cert), inp, "cert_block.expected_size differs from the exported certificate block length",
-             sb.cert_block.expected_size, len(cert))
+    es = pyres(lambda: sb.cert_block.expected_size)
+    s.expect(es == ("ok", len(cert)), inp, "cert_block.expected_size differs from the exported certificate block length", es, len(cert))
     model = drv is not None
     if model:
         a = drv.ask(f"new {hl} {spec['fw']} {spec['flags']} {spec['ts']} {hexs(spec['desc'].encode('ascii'))} {int(spec['nxp'])} "
@@ -462,8 +462,8 @@ def run(ck, only=None):
                    "block hash, payload): the ROM model must refuse it or a signature obligation must fail; a loader with different access rights must not decode the same commands; "
                    "non-trivial = distinct (file, position)")
     targets = [16 * k for k in range(1, 52)]  # 16 .. 816: every 16-byte residue through three blocks (256, 512, 768 boundaries +- 16)
-    n_rand = ck.budget(150, 12000)
-    plan = [("boundary", t) for t in targets] + [("random", None)] * n_rand + [("big", None)] * ck.budget(4, 200)
+    n_rand = ck.budget(250, 12000)
+    plan = [("boundary", t) for t in targets] + [("random", None)] * n_rand + [("big", None)] * ck.budget(6, 200)
     if not ck.quick:
         plan += [("boundary", t) for t in targets] * 20
     for cls, target in plan:
